@@ -92,6 +92,13 @@ def handlers : List (String × (List String → String)) := [
       if !lineInDomain cw (decNat w) false l then "unmodelled"
       else encStr (fitLine cw (decNat w) (decBool pad) (decBool noCrop) l)
     | _ => "bad-args"),
+  -- Traceback._render_stack: the code each frame's Syntax is built from, given the files' contents NOW
+  ("tb_codes", fun a => match a with
+    | [contents, frames] =>
+      let cs := decStrList contents
+      let fs : FileId → List Char := fun i => cs.getD i []
+      encStrList (stackCodesFrom fs [] (decNatList frames)).1
+    | _ => "bad-args"),
   -- Traceback._render_stack: the options of the Syntax built for a frame
   ("tb_opts", fun a => match a with
     | [lineno, extra, ww, ig] =>
